@@ -487,7 +487,7 @@ def run(tier, replay_path=None):
     if os.path.exists(rep):
         extra += [(l.strip(), "finding") for l in open(rep) if l.strip() and not l.startswith("#")]
     rng = random.Random(seed() * 1000003 + 29)
-    extra += [(j, "random") for j in random_jobs(rng, 4000 if quick else 100000)]
+    extra += [(j, "random") for j in random_jobs(rng, 4000 if quick else 60000)]
     extra += [(j, "dfs") for j in dfs_jobs(tier)]
     random.Random(seed() + 17).shuffle(extra)       # spread the expensive (exhaustive DFS) jobs over the driver processes
     fut_extra = pool.submit(run_driver, drv, [j for j, _ in extra])
@@ -541,7 +541,7 @@ def run(tier, replay_path=None):
     res.cov["spec_results"] = {v: {"families_clean": [f[0] for f in S[v]["ok"]], "violated": [(f[0], f[1]) for f in S[v]["violated"]],
                                    "distinct_states": S[v]["states"]} for v, _ in VARIANTS}
     # T: the verdict
-    nk, nv, rejected = judge(res, wd, drv, all_execs, kf, "t", cap=4000 if quick else 150000)
+    nk, nv, rejected = judge(res, wd, drv, all_execs, kf, "t", cap=4000 if quick else 100000)
     tick("T done: %d executions, %d known-finding hits, %d violations" % (len(all_execs), nk, nv))
     # a counterexample of the variant the code follows must be reproduced by the code (else the spec misrepresents it)
     base = len(all_execs) - len(ex3)
